@@ -186,7 +186,15 @@ def check_deletions(ctx, rule: str) -> None:
     scenarios.append(("double_reaction_deletion", "reaction", "fba", True, [["R1", "R2"], ["R2", "R4", "R5", "R1"]]))
     scenarios.append(("single_reaction_deletion", "reaction", "linear moma", False, [["R5", "R3", "R1"]]))
     scenarios.append(("double_gene_deletion", "gene", "fba", False, [None, ["gD", "gA"]]))
+    # ... and with the tasks taken in the opposite order (a task set has no order of its own)
+    from ..interp import PoolStub
+
+    backwards = {len(scenarios), len(scenarios) + 1}
+    pooled.update({len(scenarios): 2, len(scenarios) + 1: 2})
+    scenarios.append(("double_gene_deletion", "gene", "fba", False, [None, ["gD", "gA"]]))
+    scenarios.append(("double_reaction_deletion", "reaction", "fba", True, [["R1", "R2"], ["R2", "R4", "R5", "R1"]]))
     for s_idx, (fname, kind, method, objects, lists) in enumerate(scenarios):
+        PoolStub.reverse_tasks = s_idx in backwards
         model = _model()
         oracle: _Oracle = model.script
         it = _interp(ctx)
@@ -199,7 +207,7 @@ def check_deletions(ctx, rule: str) -> None:
         if method != "fba":
             ref = SolutionLP(Formulation(model), list(model.reactions), WILD, {"R1": 1.5, "R2": -2.25, "R3": 0.875, "R4": -0.5, "R5": 0.0})
             kwargs["solution"] = ref
-        what = f"{fname}({', '.join('None' if l is None else str(l) for l in lists)}, as {'objects' if objects else 'ids'}, method={method!r}{', processes=' + str(kwargs['processes']) if kwargs['processes'] > 1 else ''})"
+        what = f"{fname}({', '.join('None' if l is None else str(l) for l in lists)}, as {'objects' if objects else 'ids'}, method={method!r}{', processes=' + str(kwargs['processes']) if kwargs['processes'] > 1 else ''})" + (" with the tasks taken in the opposite order" if s_idx in backwards else "")
         try:
             out = _run(what, lambda: it.call(fn, [model] + args, kwargs))
         except EvalRaise as exc:
@@ -258,6 +266,7 @@ def check_deletions(ctx, rule: str) -> None:
             ctx.bad(rule, multi, f"deletion {clause}", problems[clause])
         else:
             ctx.ok(rule, multi, f"deletion {clause}", f"{n} scenarios: {text}")
+    PoolStub.reverse_tasks = False
     # essential genes / reactions
     bad = None
     m_n = 0
